@@ -382,6 +382,7 @@ RULE = (
     "Non-trivial = the coarsest step does not divide the overlap, or a non-uniform/unsorted domain, or >=3 inputs (equalize); "
     "interpolation actually happened (capture/stack)."
     " Scalar axes span -ndim..ndim-1 (including 0); a sixth of the overlap cases use int64 wavelength grids with non-dividing overlaps."
+    " Whole-number arrays as int64 are interpolated like the same numbers as floats."
 )
 
 PROP = Prop(
